@@ -27,13 +27,15 @@ TRUSTED = [
 ]
 ASSUMPTIONS = [
     'object graphs stay forests: an object is attached at one place at a time and never below itself (sharing and cycles are outside)',
-    'only one class has dependent methods; sub-objects have none; methods only log and, on chosen invocations, raise (caught by the harness around the triggering assignment); values are integers, object names come from a small set',
-    'path elements are object-valued parameters, the leaf is an integer parameter, an object-valued parameter, or `param` (only at depth 1); no slots (a.x:bounds); batching only as param.update / batch_call_watchers on one object around assignments to that object (distinct keys), no nesting',
+    'only one class has dependent methods (declared on it or inherited from a base class made for the case); sub-objects have none; methods only log and, on chosen invocations, raise (caught by the harness around the triggering assignment); values are integers, object names come from a small set; classes may be falsy (__len__ == 0)',
+    'path elements are object-valued parameters, the leaf is an integer parameter, an object-valued parameter, or `param` (only at depth 1); no slots (a.x:bounds); batching only as param.update / batch_call_watchers / discard_events on one object around assignments to that object (keys may repeat in a batch_call_watchers block), no nesting',
 ]
 RULE = ('directed histories (the design probes p5, p23 and their variants) + random histories: 1-2 dependent methods with 1-3 path '
         'specs of depth 1-3 under the same or different sub-objects (leaf x / y / param), 3-6 initial objects, a top object '
         'constructed with or without attachments, then 6-20 steps of attach / replace / detach at every level, creation of '
-        'fresh objects, and leaf assignments on attached and detached objects (same and different values).  After every step '
+        'fresh objects, leaf assignments on attached and detached objects (same and different values), and batched / discarded '
+        'groups of assignments on one object (param.update, batch_call_watchers with repeated keys, discard_events); the methods '
+        'are declared on the owner class or inherited from a base class, classes are sometimes falsy.  After every step '
         'the invocation log (with the values read) and the watcher tables and dynamic_watchers of all objects are compared with '
         'the model and judged by the oracle.  non-trivial = a method fired at least once and >=3 steps judged')
 COVERAGE_TARGETS = ['step:discard', 'step:batch-repeated-key', 'decl:inherited', 'decl:own', 'objects:falsy', 'leaf:object', 'step:update', 'step:batch', 'step:method-raised', 'depth:1', 'depth:2', 'depth:3', 'deps:one', 'deps:several', 'leaf:param', 'fired',
